@@ -407,6 +407,160 @@ def result_checked(body, cs, depth=0):
     return False
 
 
+def place_enum(P, body, place):
+    """The ADT description of the enum a place has (following `*` and field projections through the ADT table), or None."""
+    ty = body.local_ty(place["l"])
+    for pr in place.get("p", ()):
+        ty = mir._strip_lifetimes(ty).strip()
+        while ty.startswith("&"):
+            ty = ty[1:].replace("mut ", "", 1).strip()
+        if pr == "*":
+            continue
+        if isinstance(pr, dict) and "f" in pr:
+            a = P.adts.get(ty.split("<")[0])
+            if a is None:
+                return None
+            fl = [f for v in a["variants"] for f in v["fields"] if f["name"] == pr.get("n")]
+            if not fl:
+                return None
+            ty = fl[0]["ty"]
+        else:
+            return None
+    ty = mir._strip_lifetimes(ty).strip()
+    while ty.startswith("&"):
+        ty = ty[1:].replace("mut ", "", 1).strip()
+    a = P.adts.get(ty.split("<")[0])
+    return a if a and a.get("kind") == "enum" else None
+
+
+def variant_arm_agreement_rule(chk, P, key, doc, select, flavours, floor):
+    """Arm/name agreement for a family of same-named variants (e.g. Proto / Json): in every `match` over an enum whose variant names are
+    the given flavours, the arm for variant V only mentions V - callees, generic arguments and constructed variants named after another
+    flavour in that arm mean the arms are crossed."""
+    rx = re.compile(r"\b(%s)\b" % "|".join(map(re.escape, flavours)))
+
+    def f():
+        n, ev = 0, []
+        for b in P.bodies.values():
+            if not select(b) or b.kind.startswith(("Const", "Static")):
+                continue
+            discr_places = {}
+            for bb, j, st in b.statements(normal_only=True):
+                if st["k"] == "assign" and st["rv"]["k"] == "discr" and "p" not in st["place"]:
+                    discr_places[st["place"]["l"]] = st["rv"]["place"]
+            for i, t in b.switches():
+                l = mir.Body._op_local(t["discr"])
+                pl = discr_places.get(l)
+                if pl is None:
+                    continue
+                a = place_enum(P, b, pl)
+                if a is None or not set(v["name"] for v in a["variants"]) <= set(flavours) or len(a["variants"]) < 2:
+                    continue
+                by_discr = {str(v.get("discr", k)): v["name"] for k, v in enumerate(a["variants"])}
+                tgts = [(str(v), nb) for v, nb in t["targets"]]
+                known = {v for v, nb in tgts}
+                rest = [nm for d, nm in by_discr.items() if d not in known]
+                if t.get("otherwise") is not None and len(rest) == 1:
+                    tgts.append((next(d for d, nm in by_discr.items() if nm == rest[0]), t["otherwise"]))
+                for v, nb in tgts:
+                    want = by_discr.get(v)
+                    if want is None:
+                        continue
+                    region = [x for x in range(len(b.blocks)) if b.edge_dominates(i, nb, x)]
+                    n += 1
+                    for x in region:
+                        term = b.blocks[x]["term"]
+                        texts = []
+                        if term["k"] == "call":
+                            c = mir.CallSite(b, x, term)
+                            texts.append((" ".join([c.callee.get("full") or "", c.callee.get("path") or ""] + list(c.callee.get("generics") or [])), c.loc))
+                        for st in b.blocks[x]["stmts"]:
+                            rv = st.get("rv") if st.get("k") == "assign" else None
+                            if rv and rv["k"] == "agg" and rv.get("variant") in flavours:
+                                texts.append((rv["variant"], "%s:%s" % (b.file, st.get("line"))))
+                        # string constants used in the arm (content types, paths ...): judged by the flavour's lower-case stem
+                        for st in b.blocks[x]["stmts"]:
+                            rv = st.get("rv") if st.get("k") == "assign" else None
+                            if rv and rv["k"] == "use":
+                                v = mir.o_const_value(b.origin(rv["op"]))
+                                if isinstance(v, str) and v:
+                                    low = v.lower()
+                                    mine = want.lower() in low
+                                    others = [fl for fl in flavours if fl != want and fl.lower() in low]
+                                    if others and not mine:
+                                        return False, ("%s: the `%s` arm of the match on %s yields the constant %r, which names %s" %
+                                                       (b.key, want, a["path"].rsplit("::", 1)[-1], v, others[0])), [], "%s:%s" % (b.file, st.get("line"))
+                        for text, loc in texts:
+                            other = {m for m in rx.findall(text)} - {want}
+                            if other:
+                                return False, ("%s: the `%s` arm of the match on %s at %s uses %s (%s): the arms are crossed, so data is produced in one "
+                                               "form and labelled / sent as the other" % (b.key, want, a["path"].rsplit("::", 1)[-1], loc, sorted(other)[0], text[:90])), [], loc
+                    ev.append("%s: %s arm" % (b.key.rsplit("::", 2)[-2] + "::" + b.key.rsplit("::", 1)[-1], want))
+        if n < floor:
+            raise mir.AnchorMissing("match arms over %s-flavoured enums (found %d, expected >= %d)" % ("/".join(flavours), n, floor))
+        return True, "", ["%d arms checked" % n] + ev[:12]
+    chk.ob(key, doc, f)
+
+
+def name_flavour_rule(chk, P, key, doc, select, families, module_stems, floor):
+    """Constructors named after a flavour build that flavour: a function whose name carries exactly one member of a family (`http_json`:
+    http of {http, grpc}, json of {proto, json}) neither constructs a variant nor calls a sibling constructor named after another member of
+    that family.  `module_stems` maps a module path fragment to the stem string constants of that module must carry when they carry any
+    member of the stem family (signal-specific paths)."""
+    def f():
+        n, ev = 0, []
+        all_stems = set(module_stems.values())
+        for b in P.bodies.values():
+            if not select(b) or b.is_closure or b.kind.startswith(("Const", "Static")):
+                continue
+            toks = set(b.key.rsplit("::", 1)[-1].lower().split("_"))
+            for fam in families:
+                mine = [fl for fl in fam if fl in toks]
+                if len(mine) != 1:
+                    continue
+                own = mine[0]
+                others = [fl for fl in fam if fl != own]
+                n += 1
+                for x in [b] + P.closures_of(b):
+                    for bb, j, st in x.statements(normal_only=True):
+                        rv = st.get("rv") if st["k"] == "assign" else None
+                        if rv and rv["k"] == "agg" and (rv.get("variant") or "").lower() in others:
+                            return False, ("%s constructs %s::%s at %s:%s: a constructor named `%s` must build the %s flavour" %
+                                           (b.key, (rv.get("adt") or "").rsplit("::", 1)[-1], rv["variant"], x.file, st.get("line"), own, own)), [], "%s:%s" % (x.file, st.get("line"))
+                    for c in x.calls(normal_only=True):
+                        ct = set((c.callee.get("name") or "").lower().split("_"))
+                        if (c.callee.get("path") or "").startswith(b.crate + "::") and (ct & set(others)) and own not in ct:
+                            return False, ("%s calls %s at %s: a constructor named `%s` must not go through the `%s` one" %
+                                           (b.key, c.callee.get("path"), c.loc, own, sorted(ct & set(others))[0])), [], c.loc
+                ev.append("%s: %s" % (b.key.rsplit("::", 2)[-2] + "::" + b.key.rsplit("::", 1)[-1], own))
+            for frag, stem in module_stems.items():
+                if frag not in b.key:
+                    continue
+                for x in [b] + P.closures_of(b):
+                    for bb, j, st in x.statements(normal_only=True):
+                        rv = st.get("rv") if st["k"] == "assign" else None
+                        ops = []
+                        if rv and rv["k"] == "use":
+                            ops = [rv["op"]]
+                        elif rv and rv["k"] == "agg":
+                            ops = rv.get("ops") or []
+                        for op in ops:
+                            v = mir.o_const_value(x.origin(op))
+                            if isinstance(v, str) and len(v) > 8:
+                                low = v.lower()
+                                hit = [sx for sx in all_stems if sx in low]
+                                if hit:
+                                    n += 1
+                                    if stem not in low:
+                                        return False, ("%s uses the constant %r: it names the %s signal inside the %s module" %
+                                                       (b.key, v, hit[0], frag.strip(":"))), [], "%s:%s" % (x.file, st.get("line"))
+                                    ev.append("%s: %r" % (b.key.rsplit("::", 1)[-1], v[:60]))
+        if n < floor:
+            raise mir.AnchorMissing("flavour-named constructors / signal constants (found %d, expected >= %d)" % (n, floor))
+        return True, "", ["%d sites" % n] + ev[:16]
+    chk.ob(key, doc, f)
+
+
 def config_wiring_rule(chk, P, key, doc, body_keys, floor):
     """Configuration reaches its consumer unchanged: inside the given builder methods, wherever a field of `self` is handed to a
     like-named parameter of a workspace function, or stored in a like-named field of a workspace struct, it is exactly `self.<name>`
